@@ -238,6 +238,17 @@ def query_clauses(ctx) -> None:
     want = {'where': 'source.prefilter', 'having': 'source.postfilter', 'groupby': 'source.grouping', 'orderby': 'source.ordering', 'features': 'source.features'}
     for var, member in want.items():
         ctx.check(var in defs and member in defs[var], 'C06.query-clauses', vq, f'`{var}` is generated from {member}', vq.node, key=f'visit_query:{var}')
+    # ... from the whole member, unconditionally (a presence test of the optional filters is the only accepted condition):
+    # ordering/grouping of a nested statement matters as soon as it is limited, so it is never dropped by context
+    exact = {
+        'features': '[self.generate_feature(c) for c in source.features]',
+        'where': 'self.generate_feature(source.prefilter) if source.prefilter is not None else None',
+        'groupby': '[self.generate_feature(c) for c in source.grouping]',
+        'having': 'self.generate_feature(source.postfilter) if source.postfilter is not None else None',
+        'orderby': '[(self.generate_feature(c), o) for c, o in source.ordering]',
+    }
+    for var, text in exact.items():
+        ctx.check(defs.get(var) == text, 'C06.query-clauses', vq, f'`{var}` = `{text}` (found `{defs.get(var)}`)', vq.node, key=f'visit_query:{var}:exact')
 
 
 def context_caches(ctx) -> None:
